@@ -296,7 +296,7 @@ CLAIMED["C15"] = dict(
     design="7 C15")
 
 CLAIMED["C16"] = dict(
-    text="Kernel-checked: C16_tree — reading the file of ANY well-formed tree returns exactly that tree (C01), so saving what was "
+    text="C16_array_generations — the Array read back is again in the domain of C02_roundtrip: generation 2 equals generation 1 field by field (dims verbatim or numpy-equal). Kernel-checked: C16_tree — reading the file of ANY well-formed tree returns exactly that tree (C01), so saving what was "
          "read writes the same file content: the fixed point is reached after one generation; C16_selection — every read selection "
          "is again a well-formed tree; value level (the reader's output forms are distinct constructors of the model, so the "
          "writer's behaviour on them is really exercised): C16_canon_idem — the read-back form is idempotent; C16_same_object — "
